@@ -42,3 +42,19 @@ Proof. reflexivity. Qed.
 (* the translator found the source shape it extracts send_kexinit_defaults from (otherwise gen/Tables.v carries fallback values and this lemma fails) *)
 Lemma tie_extract_ok_send_kexinit_defaults : extract_ok_send_kexinit_defaults = true.
 Proof. reflexivity. Qed.
+
+(* the connection-rate check of a standard audit (non-interactive, within its time budget): the stop conditions of the loop and the condition under which one more
+   socket is opened, as they read in the current source (T1c translation), are the ones the model's rate_loop / open_new use *)
+Open Scope Z_scope.
+Lemma tie_rate_stop_opened : forall opened, (rate_max_connections <=? opened) = src_rate_stop_time_or_opened false false opened rate_max_connections.
+Proof. intros. unfold src_rate_stop_time_or_opened. cbn [Bool.eqb andb orb]. rewrite Z.geb_leb. reflexivity. Qed.
+Lemma tie_rate_stop_attempts : forall attempted pending,
+  ((rate_max_connections <=? attempted) && (pending =? 0)) = src_rate_stop_attempts false attempted rate_max_connections pending.
+Proof. intros. unfold src_rate_stop_attempts. cbn [Bool.eqb andb]. rewrite Z.geb_leb. reflexivity. Qed.
+Lemma tie_rate_open_more : forall pending opened attempted,
+  ((pending <? rate_concurrent_sockets) && (pending + opened <? rate_max_connections) && (attempted <? rate_max_connections))
+  = src_rate_open_more false pending rate_concurrent_sockets opened attempted rate_max_connections.
+Proof. reflexivity. Qed.
+(* the time budget ends the loop whatever the counters say *)
+Lemma rate_time_up_stops : forall opened maxc, src_rate_stop_time_or_opened false true opened maxc = true.
+Proof. reflexivity. Qed.
